@@ -59,6 +59,11 @@ func shapes() []ctxShape {
 		}, func(b string) []string {
 			return []string{"__on_conversion::" + b + "::example.com.v1::example.com.v2", "__on_conversion::" + b}
 		}},
+		// contexts without a type (configVersion v0 hooks): no typed candidates, __main__ serves them
+		{"Typeless", func(b string) map[string]any { return map[string]any{"binding": b} }, func(string) []string { return nil }},
+		{"TypelessKube", func(b string) map[string]any {
+			return map[string]any{"binding": b, "resourceEvent": "add", "resourceKind": "pod", "resourceName": "p", "resourceNamespace": "default"}
+		}, func(string) []string { return nil }},
 	}
 }
 
@@ -108,6 +113,12 @@ func (e *c19env) run(id int, defs []handlerDef, contexts []map[string]any, args 
 	sb.WriteString("#!/bin/bash\nsource " + e.lib + "\n")
 	sb.WriteString("function __config__() { echo 'configVersion: v1'; }\n")
 	for _, d := range defs {
+		if d.status < 0 {
+			// a failure in strict mode: a command in the middle of the handler fails; the library's
+			// `set -e` must end the handler (and the run) there
+			sb.WriteString(fmt.Sprintf("function %s() { echo \"%s ${BINDING_CONTEXT_CURRENT_INDEX}\" >> %s; cat /nonexistent/zzverif 2>/dev/null; echo \"%s-continued-after-failed-command ${BINDING_CONTEXT_CURRENT_INDEX}\" >> %s; return 0; }\n", d.name, d.name, trace, d.name, trace))
+			continue
+		}
 		sb.WriteString(fmt.Sprintf("function %s() { echo \"%s ${BINDING_CONTEXT_CURRENT_INDEX}\" >> %s; return %d; }\n", d.name, d.name, trace, d.status))
 	}
 	sb.WriteString("hook::run \"$@\"\n")
@@ -270,6 +281,12 @@ func TestVerifC19(t *testing.T) {
 					}
 					def2[names[0]] = 3
 					eval(fmt.Sprintf("single-fail|%s|%s|%v", sh.id, b, names), []ctxCase{{sh, b, def2}})
+					def3 := map[string]int{}
+					for _, h := range names {
+						def3[h] = 0
+					}
+					def3[names[0]] = -1
+					eval(fmt.Sprintf("single-strict-fail|%s|%s|%v", sh.id, b, names), []ctxCase{{sh, b, def3}})
 				}
 			}
 		}
@@ -278,9 +295,9 @@ func TestVerifC19(t *testing.T) {
 		}
 	}
 	// arrays of 2-3 contexts of different types, with a failing or missing handler at each position
-	pick := []int{1, 2, 4, 5, 6, 9}
+	pick := []int{1, 2, 4, 5, 6, 9, 10, 11}
 	if !vres.Thorough() {
-		pick = []int{1, 2, 6}
+		pick = []int{1, 2, 6, 10}
 	}
 	for _, b := range []string{"pods", "Monitor pods in cache tier"} {
 		for _, i1 := range pick {
@@ -291,8 +308,8 @@ func TestVerifC19(t *testing.T) {
 						idx = append(idx, i3)
 					}
 					for bad := -1; bad < len(idx); bad++ {
-						for _, how := range []string{"fail", "missing"} {
-							if bad < 0 && how == "missing" {
+						for _, how := range []string{"fail", "missing", "strict"} {
+							if bad < 0 && how != "fail" {
 								continue
 							}
 							var cases []ctxCase
@@ -301,13 +318,20 @@ func TestVerifC19(t *testing.T) {
 								sh := shs[si]
 								// handler: the least specific candidate when definable, else __main__ is relied upon
 								c := sh.cand(b)
-								h := c[len(c)-1]
+								h := "__main__"
+								if len(c) > 0 {
+									h = c[len(c)-1]
+								}
+								badStatus := 5
+								if how == "strict" {
+									badStatus = -1
+								}
 								def := map[string]int{}
 								if definable(h) {
 									if pos == bad && how == "missing" {
 										// nothing defined for this context
 									} else if pos == bad {
-										def[h] = 5
+										def[h] = badStatus
 									} else {
 										def[h] = 0
 									}
@@ -316,7 +340,7 @@ func TestVerifC19(t *testing.T) {
 									if !(pos == bad && how == "missing") {
 										st := 0
 										if pos == bad {
-											st = 5
+											st = badStatus
 										}
 										def["__main__"] = st
 									}
